@@ -306,17 +306,22 @@ def r5_recovery(ctx):
         if b is not None:
             paths = ctx.paths(b)
             rf, sl = scan_start(paths[0])
-            okshape = rf is not None and sl is not None and plus(rf) == plus(sl) and plus(rf)[0][0] == "arg"
-            pred = F.closure("quick_xml::events::attributes::IterState::skip_value::{closure#0}")
-            cs = [callee_of(t)[0] for _, t in pred.calls()] if pred is not None else []
-            ctx.ob("R5", "skip_value:scan", okshape and len(cs) == 1 and name_is(cs[0] or "", "is_whitespace"), "skips to the first XML whitespace at or after the value start (index and slice start agree)", config=cfg)
+            # spelling A: (offset..).zip(slice[offset..].iter()).find(pred) -> the index component of the hit
+            # spelling B: slice[offset..].iter().position(pred) -> offset + position
+            searches = [c for c in calls(paths[0]) if name_is(c[2], "find", "position") and not isinstance(c[1], tuple)]
+            spelling_b = bool(searches) and name_is(searches[0][2], "position") and rf is None
+            okshape = sl is not None and plus(sl)[0][0] == "arg" and (spelling_b or (rf is not None and plus(rf) == plus(sl)))
+            preds = [F.closure(strip_wrappers(a)[1]) for c in searches for a in c[3] if strip_wrappers(a)[0] == "closure"]
+            cs = [callee_of(t)[0] for pb in preds if pb is not None for _, t in pb.calls()]
+            negated = any(ret_of(p0) is not None and ret_of(p0)[0] == "un" and ret_of(p0)[1] == "Not" for pb in preds if pb is not None for p0 in sym.walk(pb))
+            ctx.ob("R5", "skip_value:scan", okshape and len(cs) == 1 and name_is(cs[0] or "", "is_whitespace") and not negated, "skips to the first XML whitespace at or after the value start (index and slice start agree)", config=cfg)
             for p in paths:
                 if ends(p) != "ret":
                     continue
                 r = ret_of(p)
-                d = decision_on(p, lambda t: t[0] == "discr" and call_is(t[1], "find"))
+                d = decision_on(p, lambda t: t[0] == "discr" and call_is(t[1], "find", "position"))
                 if d is None and call_is(r, "map") and call_is(r[3][0], "find"):
-                    # `iter.find(pred).map(|(e, _)| e)`: Some(index of the hit) / None, in one expression
+                    # `iter.find(pred).map(|(e, _)| e)` handed to a combinator the engine does not model
                     proj = False
                     for a in r[3][1:]:
                         cb = F.closure(a[1]) if a[0] == "closure" else None
@@ -328,7 +333,14 @@ def r5_recovery(ctx):
                     ctx.ob("R5", "skip_value:found", proj, "resume at the whitespace that ends the value (find(..).map(|(e, _)| e))", config=cfg)
                     ctx.ob("R5", "skip_value:end", proj, "value runs to the end of input: nothing more to iterate", config=cfg)
                 elif d == 1:
-                    ctx.ob("R5", "skip_value:found", r[0] == "agg" and r[2] == "Some" and found_index(r[3][0]) is not None, "resume at the whitespace that ends the value", config=cfg)
+                    v = r[3][0] if r[0] == "agg" and r[2] == "Some" and r[3] else None
+                    if spelling_b:
+                        # offset + position in slice[offset..]
+                        good = v is not None and v[0] == "bin" and v[1] == "Add" and {strip_wrappers(v[2])[0], strip_wrappers(v[3])[0]} == {"arg", "pl"} and \
+                            has_subterm(v, lambda s2: call_is(s2, "position")) and plus(sl)[1] == 0 and (strip_wrappers(v[2]) == strip_wrappers(sl) or strip_wrappers(v[3]) == strip_wrappers(sl))
+                    else:
+                        good = v is not None and found_index(v) is not None
+                    ctx.ob("R5", "skip_value:found", good, "resume at the whitespace that ends the value", config=cfg)
                 else:
                     ctx.ob("R5", "skip_value:end", r[0] == "agg" and r[2] == "None", "value runs to the end of input: nothing more to iterate", config=cfg)
         # ---- next(): index and slice start agree
